@@ -6190,6 +6190,8 @@ class Frame(ContainerOperand):
         iloc_key = self._columns._loc_to_iloc(key)
         if not isinstance(iloc_key, INT_TYPES):
             raise RuntimeError(f'Unsupported key type: {key}')
+        if iloc_key < 0: # a position counted from the end
+            iloc_key += len(self._columns)
         return self._insert(iloc_key, container, fill_value=fill_value)
 
     @doc_inject(selector='insert')
@@ -6213,6 +6215,8 @@ class Frame(ContainerOperand):
         iloc_key = self._columns._loc_to_iloc(key)
         if not isinstance(iloc_key, INT_TYPES):
             raise RuntimeError(f'Unsupported key type: {key}')
+        if iloc_key < 0: # a position counted from the end
+            iloc_key += len(self._columns)
         return self._insert(iloc_key + 1, container, fill_value=fill_value)
 
     #---------------------------------------------------------------------------
